@@ -121,4 +121,13 @@ CLAIMS["C20"] = dict(
     note=(TRUST + "Not decided: the loop-based generic templates (clz/ctz/ffs/integer_log2), popcount SWAR arithmetic, agreement of intrinsics with their definition (trusted compiler), floating-point rounding."),
 )
 
+CLAIMS["C18"] = dict(
+    level="other",
+    technique="static analysis: small-model evaluation of the extracted integer guard prefixes against std::string_view's clamping rules, banned-primitive / signed-order who-may-call rules over the typed AST, scan-bound and position-flow rules, relational derivation and overload role tables",
+    text=("GUARD-TABLES for at/substr/copy and the six find-family members (throw / early return / clamped scan start on all orderings of pos, size, n, argument size "
+          "incl. npos wrap-around), NO-CSTR-PRIMITIVE and BYTE-ORDER-UNSIGNED (found and fixed: compare/rfind via strncmp, operator< on signed char), POS-REACHES-ACCESS "
+          "(found and fixed: copy ignored pos), SCAN-BOUND, REL-FROM-COMPARE, OVERLOAD-ROLES (18 forwarding overloads)."),
+    note=(TRUST + "Not decided: the values returned by the std algorithms the members delegate to (std::search, find_first_of, char_traits), i.e. search results as such; max_size(); UB cases of std::string_view."),
+)
+
 NOT_APPLICABLE = {}
